@@ -985,6 +985,9 @@ func New() *FunctionGenerator {
 
 	f.AddStaticFunction("min", funcGen.Function[Value]{
 		Func: func(st funcGen.Stack[Value], cs []Value) (Value, error) {
+			if st.Size() == 0 {
+				return nil, errors.New("min requires at least one argument")
+			}
 			var m Value
 			for i := 0; i < st.Size(); i++ {
 				v := st.Get(i)
@@ -1007,6 +1010,9 @@ func New() *FunctionGenerator {
 	}.SetDescription("a", "b", "Returns the smaller of a and b."))
 	f.AddStaticFunction("max", funcGen.Function[Value]{
 		Func: func(st funcGen.Stack[Value], cs []Value) (Value, error) {
+			if st.Size() == 0 {
+				return nil, errors.New("max requires at least one argument")
+			}
 			var m Value
 			for i := 0; i < st.Size(); i++ {
 				v := st.Get(i)
